@@ -13,7 +13,7 @@ Init == /\ R \in Tables /\ h = NoH /\ q = QEmpty
         /\ out = <<"pending">> /\ done = FALSE
 Get(hh, qq) == /\ ~done /\ h' = hh /\ q' = qq /\ out' = MGet(R, hh, qq) /\ done' = TRUE
                /\ UNCHANGED R
-Next == \E hh \in ReqHosts, qq \in ReqPaths : Get(hh, qq)
+Next == ~done /\ \E hh \in ReqHosts, qq \in ReqPaths : Get(hh, qq)
 
 MRefinesP == done => out \in BasicExpect(R, h, q)
 
